@@ -211,8 +211,23 @@ func (g *pipeGen) quit() *PReq {
 }
 
 // pipeline builds n requests by the generator's weights. A QUIT may appear at
-// most once; requests after it are still sent but expect nothing.
+// most once and is then the last request: bytes a client sends after QUIT are
+// unread when the proxy closes the socket, the kernel answers that with a
+// reset, and a reset may destroy replies the client has not read yet - a loss
+// that happens in the client's kernel, not in the proxy.
 func (g *pipeGen) pipeline(n int) []*PReq {
+	p := g.pipeline0(n)
+	for i, r := range p {
+		if r.Kind == "quit" && i != len(p)-1 {
+			copy(p[i:], p[i+1:])
+			p[len(p)-1] = r
+			break
+		}
+	}
+	return p
+}
+
+func (g *pipeGen) pipeline0(n int) []*PReq {
 	var out []*PReq
 	total := g.wSingle + g.wMulti + g.wPing + g.wAuth + g.wReject + g.wQuit
 	quitSeen := false
